@@ -322,3 +322,81 @@ end StarsimModel.Gen
 '''
     facts = dict(wrapLost=lost, wrapCall=wrapcall, shortcuts=shortcuts, poolBetaTest=ptest, poolBetaField=pfield, decls=decls)
     return body, facts
+
+
+# ---------------------------------------------------------------------------
+# Round 4: which step counter schedules / triggers recovery; how Time.init derives the step length in years
+#
+# Generated/StepClocks.lean
+#   sisSchedClock / sisRecoverClock / sirSchedClock / sirRecoverClock   "module" | "sim":
+#       set_prognoses: `self.ti_recovered[...] = <clock> + dur_inf`;  step_state: `self.ti_recovered <= <clock>`
+#   dtYearNumeric / dtYearDate   "ratio" (time_ratio(date_unit, self.dt, 'year', 1.0)) | "dt" (the raw dt), for a numeric / calendar axis
+
+SIRPY = 'starsim/diseases/sir.py'
+MODULE_CLOCKS = {'self.ti', 'self.t.ti'}
+SIM_CLOCKS = {'sim.ti', 'self.sim.ti', 'sim.t.ti', 'self.sim.t.ti'}
+
+
+def _clock_of(node, fn, where):
+    from harness.extractors.transmission import local_env
+    env = local_env(fn)
+    txt = unparse(node)
+    for _ in range(4):                                       # resolve single-assignment aliases (`ti = self.t.ti`, `sim = self.sim`)
+        if isinstance(node, ast.Name) and env.get(node.id) is not None:
+            node = env[node.id]; txt = unparse(node)
+        else:
+            break
+    if isinstance(node, ast.Attribute) and isinstance(node.value, ast.Name) and env.get(node.value.id) is not None:
+        txt = unparse(env[node.value.id]) + '.' + node.attr
+    if isinstance(node, ast.Attribute) and isinstance(node.value, ast.Attribute) and isinstance(node.value.value, ast.Name) and env.get(node.value.value.id) is not None:
+        txt = unparse(env[node.value.value.id]) + '.' + node.value.attr + '.' + node.attr
+    if txt in MODULE_CLOCKS: return 'module'
+    if txt in SIM_CLOCKS: return 'sim'
+    raise ExtractError(f'{where}: step counter `{txt}` is outside the supported vocabulary')
+
+
+def _recovery_clocks(src, cls):
+    st = src.func(SIRPY, 'step_state', cls)
+    rec = [n for n in ast.walk(st) if isinstance(n, ast.Compare) and unparse(n.left) == 'self.ti_recovered' and len(n.ops) == 1 and isinstance(n.ops[0], ast.LtE)]
+    if len(rec) != 1:
+        raise ExtractError(f'{cls}.step_state: expected one `self.ti_recovered <= <step counter>`, found {len(rec)}')
+    sp = src.func(SIRPY, 'set_prognoses', cls)
+    sch = [n for n in ast.walk(sp) if isinstance(n, ast.Assign) and unparse(n.targets[0]).startswith('self.ti_recovered[') and isinstance(n.value, ast.BinOp) and isinstance(n.value.op, ast.Add)]
+    if len(sch) != 1:
+        raise ExtractError(f'{cls}.set_prognoses: expected one `self.ti_recovered[...] = <step counter> + <duration>`, found {len(sch)}')
+    return _clock_of(sch[0].value.left, sp, f'{cls}.set_prognoses'), _clock_of(rec[0].comparators[0], st, f'{cls}.step_state')
+
+
+def _dt_year(src):
+    init = src.func(TIME, 'init', 'Time')
+    vals = [n.value for n in ast.walk(init) if isinstance(n, ast.Assign) and len(n.targets) == 1 and unparse(n.targets[0]) == 'dt_year']
+    if len(vals) != 1:
+        raise ExtractError(f'Time.init: expected one `dt_year = ...`, found {len(vals)}')
+    du = [unparse(n.value) for n in ast.walk(init) if isinstance(n, ast.Assign) and unparse(n.targets[0]) == 'date_unit']
+    if du != ["'year' if not has_units(self.unit) else self.unit"]:
+        raise ExtractError(f'Time.init: date_unit changed: {du}')
+
+    def kind(n):
+        if isinstance(n, ast.Call) and unparse(n.func) in ('time_ratio', 'ss.time_ratio'):
+            kws = {k.arg: unparse(k.value) for k in n.keywords}
+            for i, a in enumerate(n.args): kws[['unit1', 'dt1', 'unit2', 'dt2'][i]] = unparse(a)
+            if (kws.get('unit1'), kws.get('dt1'), kws.get('unit2'), kws.get('dt2', '1.0')) in (('date_unit', 'self.dt', "'year'", '1.0'), ('date_unit', 'self.dt', "'year'", '1')):
+                return 'ratio'
+        if unparse(n) == 'self.dt': return 'dt'
+        raise ExtractError(f'Time.init: dt_year expression `{unparse(n)}` is outside the supported vocabulary')
+    v = vals[0]
+    if isinstance(v, ast.IfExp):
+        t = unparse(v.test)
+        if t == 'self.is_numeric': return kind(v.body), kind(v.orelse)
+        if t == 'not self.is_numeric': return kind(v.orelse), kind(v.body)
+        raise ExtractError(f'Time.init: dt_year depends on `{t}`')
+    return kind(v), kind(v)
+
+
+@generator('StepClocks', [SIRPY, TIME])
+def gen_step_clocks(src):
+    sis = _recovery_clocks(src, 'SIS'); sir = _recovery_clocks(src, 'SIR')
+    num, dat = _dt_year(src)
+    facts = dict(sisSchedClock=sis[0], sisRecoverClock=sis[1], sirSchedClock=sir[0], sirRecoverClock=sir[1], dtYearNumeric=num, dtYearDate=dat)
+    defs = '\n'.join(f'def {k} : String := {lean_str(v)}' for k, v in facts.items())
+    return f'namespace StarsimModel.Gen\n{defs}\nend StarsimModel.Gen\n', facts
